@@ -18,7 +18,7 @@ func init() {
 	register(&Rule{ID: "E-AST-READONLY", Props: []string{"C06", "C07", "C19"}, Floor: 3,
 		Doc: "no store to a field of a parser node, of Expression or of the evaluator outside their constructors; Expression.node is set only in the literals of Compile/MustCompile, evaluator fields only in Evaluate",
 		Run: ruleEAstReadonly})
-	register(&Rule{ID: "A-GLOBALS", Props: []string{"C07", "C06", "C15"}, Floor: 10,
+	register(&Rule{ID: "A-GLOBALS", Props: []string{"C07", "C06", "C15"}, Floor: 4,
 		Doc: "every package-level variable of the four packages is never stored to, updated through, or passed by address in API-reachable code; only error sentinels and read-only tables are allowed, sync/atomic-typed state is outside the analysable fragment",
 		Run: ruleAGlobals})
 	register(&Rule{ID: "A-NOGO", Props: []string{"C07", "C15"}, Floor: 1,
@@ -27,7 +27,7 @@ func init() {
 	register(&Rule{ID: "E-NONDET-API", Props: []string{"C15", "C07"}, Floor: 1,
 		Doc: "no API-reachable repository function calls into time, math/rand, crypto/rand, os, runtime, sync or unsafe, converts a pointer to an integer, or formats a pointer",
 		Run: ruleENondetAPI})
-	register(&Rule{ID: "E-MAPRANGE", Props: []string{"C15", "C19"}, Floor: 8,
+	register(&Rule{ID: "E-MAPRANGE", Props: []string{"C15", "C19"}, Floor: 3,
 		Doc: "every range over a map in API-reachable code is order-insensitive: no value is carried between iterations except writes keyed by the iteration key, early error returns and (only in the member enumerators the property exempts) the output position",
 		Run: ruleEMapRange})
 }
